@@ -2009,6 +2009,12 @@ def sym_eq(interp, a, b):
         return wrap(x == y)
     if isinstance(a, (SStr, str)) and isinstance(b, (SStr, str)):
         return wrap(term(a) == term(b))
+    # values of unrelated Python types are never equal: str vs number, scalar vs sequence, ...
+    kinds = ((SStr, str), (SInt, SReal, SBool, SFloat, int, float, bool), (list, tuple, SSeq), (dict, SDict))
+    ka = [i for i, k in enumerate(kinds) if isinstance(a, k)]
+    kb = [i for i, k in enumerate(kinds) if isinstance(b, k)]
+    if ka and kb and ka[0] != kb[0]:
+        return False
     if isinstance(a, (list, tuple)) and isinstance(b, (list, tuple)):
         if type(a) is not type(b) and not (isinstance(a, (list, tuple)) and isinstance(b, type(a))):
             if isinstance(a, list) != isinstance(b, list):
